@@ -51,6 +51,11 @@ def gen(ctx, path):
             s = rnd.choice(starts)
             for a in (0.0, 0.37, 1.0):
                 c.add(**{"from": "srgb", "in": s + (a,), "path": [A, B] if A != "srgb" else [B], "mode": "a"})
+    # a user-defined colour type with an internal alpha field, wired in by the derive macro (harness: UserRgb)
+    for A in ORDER:
+        pts = random_in(A, rnd, 3 if ctx.quick else 12) + rnd.sample(lattice_in(A), 2 if ctx.quick else 8)
+        for i, pnt in enumerate(pts):
+            c.add(op="user", node=A, **{"in": tuple(pnt) + ((0.0, 0.25, 0.7311, 1.0, 1.5)[i % 5],)})
     # real colours outside the sRGB gamut, between the spaces that can represent them
     n2 = 10 if ctx.quick else 80
     outs = []
@@ -70,7 +75,7 @@ def gen(ctx, path):
 
 # the universe of the other RGB standards and white points (harness binaries convstd64/convstd32)
 STD_GROUPS = {"srgb": ["xyz", "lab", "srgb", "linsrgb", "adobe", "linadobe", "p3", "linp3", "rec2020", "linrec2020", "rec709", "hsv_adobe",
-                       "hsl_p3", "hwb_rec2020"],
+                       "hsl_p3", "hwb_rec2020", "hsv", "hsl", "hwb"],      # each hexcone form in two RGB standards
               "prophoto": ["xyz50", "lab50", "lch50", "luv50", "prophoto", "linprophoto", "hsv_prophoto"],
               "dcip3": ["xyzdci", "labdci", "dcip3", "lindcip3"]}
 
@@ -128,6 +133,10 @@ def coords_of(ev, why):
             d["dev"] = hub_dev(ev)
         except Exception:
             d["dev"] = float("inf")
+    elif ev["ev"] == "user":
+        d["nodes"] = ev["node"] + ">UserRgb>" + ev["node"]
+        d["okrgb_adjacent"] = False
+        d["dev"] = 0.0
     elif ev["ev"] == "tri":
         a, b = ev["w1"], ev["w2"]
         d["nodes"] = ">".join(a["nodes"]) + " | " + ">".join(b["nodes"])
@@ -266,6 +275,8 @@ def replay(ctx, path):
     elif ev["ev"] == "tri":
         vals = [dy_to_float(x) for x in ev["w1"]["vals"][0]]
         c.add(op="tri", **{"from": ev["w1"]["nodes"][0], "in": vals, "p1": ev["w1"]["nodes"][1:], "p2": ev["w2"]["nodes"][1:]})
+    elif ev["ev"] == "user":
+        c.add(op="user", node=ev["node"], **{"in": [dy_to_float(x) for x in ev["in"]]})
     else:
         c.add(op="consts")
     c.close()
